@@ -420,6 +420,11 @@ func (w *MarkdownWriter) formatRunText(run *document.Run) string {
 
 		// 检查删除线
 		if run.Properties.Strike != nil {
+			// 结束标记前面紧挨着波浪号（即使已转义）时，解析器不再把 "~~" 识别为删除线标记，
+			// 因此末尾的波浪号写成字符引用
+			if strings.HasSuffix(trimmed, "\\~") {
+				trimmed = trimmed[:len(trimmed)-2] + "&#126;"
+			}
 			trimmed = "~~" + trimmed + "~~" // 删除线
 		}
 	}
